@@ -701,10 +701,13 @@ func (e *Enc) callSiteAssertsInvoke(fr *Frame, c *ssa.CallCommon, args []Val, gu
 // source statement text starts with the given prefix; assertions are evaluated *after* that
 // statement, i.e. before the first instruction of the following statement.
 func (e *Enc) cutsBefore(fr *Frame, b *ssa.BasicBlock, i int, ins ssa.Instruction, guard T, st *State) {
-	if fr.contract == nil || fr.depth != 0 || len(fr.contract.Cuts) == 0 || e.discovery > 0 {
+	if fr.contract == nil || fr.depth != 0 || len(fr.contract.Cuts) == 0 {
 		return
 	}
 	for _, cs := range fr.contract.Cuts {
+		if e.discovery > 0 && len(cs.Lets) == 0 {
+			continue
+		}
 		if !e.prog.anchorHit(fr.fn, cs.Anchor, cs.Before, b, i) {
 			continue
 		}
@@ -718,6 +721,10 @@ func (e *Enc) cutsBefore(fr *Frame, b *ssa.BasicBlock, i int, ins ssa.Instructio
 				v = e.nameVal(v, "ghost_"+c.Label)
 			}
 			fr.lets[c.Label] = v
+		}
+		if e.discovery > 0 {
+			// write discovery only needs the ghost bindings (inner invariants may mention them)
+			continue
 		}
 		for _, c := range cs.Assumes {
 			e.assert(Implies(guard, e.evalBool(sc, c.E)))
